@@ -402,10 +402,6 @@ Definition S_writers_refuted_view : Prop :=
 
 (** * Joining a fetched multi-entry log (Load from disk, LoadFromSnapshot) *)
 
-(** [m] is closed under [next] (inside the universe every link target exists, so this
-    says: the ancestry of every member is in [m]) *)
-Definition next_closed (m : list entry) : Prop :=
-  forall e c, In e m -> In c (enext e) -> In c (hashes m).
 
 (** Joining the log built from a bag [es] of fetched entries (what [NewFromEntryHash] /
     [NewFromJSON] hand to [Join]) into an ancestry-closed log [l], when [es] together with
@@ -496,3 +492,42 @@ Definition wedge_witness (m : rmech) : Prop :=
 Definition S_repl_refuted_cancel : Prop := wedge_witness (mkRM false true true).
 Definition S_repl_refuted_fetch_failure : Prop := wedge_witness (mkRM true false true).
 Definition S_repl_refuted_merge_abort : Prop := wedge_witness (mkRM true true false).
+
+(** * Durability (C05) *)
+From Orbit Require Export Model.Durable.
+
+(** For every run of the global system, every replica [r] and EVERY crash point [k] (prefix
+    of r's persistence effects): reopening and loading yields a log that (1) contains every
+    write acknowledged and every entry reported replicated before the crash, (2) contains
+    only entries that were really written, (3) is closed under ancestry, (4) is a
+    well-formed log — so its listing, heads and views are the canonical ones of its entry
+    set (the pre-crash state restricted to the recovered entries). *)
+Definition S_durable : Prop :=
+  forall marks cont acc okop n dbid r g effs k,
+    gtrace true true marks cont acc okop n dbid r g effs ->
+    let rec := recover true dbid acc (disk_at effs k) in
+    (forall h, In h (acked (firstn k effs)) -> In h (hashes (lents rec))) /\
+    incl (lents rec) (guniv g) /\
+    next_closed (lents rec) /\
+    log_ok (guniv g) rec.
+
+(** acknowledging before persisting the head loses an acknowledged write at some crash point *)
+Definition S_durable_refuted_ack_first : Prop :=
+  exists marks cont acc n dbid r g effs k,
+    gtrace false true marks cont acc any_okop n dbid r g effs /\
+    exists h, In h (acked (firstn k effs)) /\
+              ~ In h (hashes (lents (recover true dbid acc (disk_at effs k)))).
+
+(** reporting a batch replicated before persisting the heads loses it at some crash point *)
+Definition S_durable_refuted_repl_first : Prop :=
+  exists marks cont acc n dbid r g effs k,
+    gtrace true false marks cont acc any_okop n dbid r g effs /\
+    exists h, In h (acked (firstn k effs)) /\
+              ~ In h (hashes (lents (recover true dbid acc (disk_at effs k)))).
+
+(** a Load that ignored the remote head set would lose replicated entries *)
+Definition S_durable_refuted_local_only : Prop :=
+  exists marks cont acc n dbid r g effs k,
+    gtrace true true marks cont acc any_okop n dbid r g effs /\
+    exists h, In h (acked (firstn k effs)) /\
+              ~ In h (hashes (lents (recover false dbid acc (disk_at effs k)))).
